@@ -397,6 +397,52 @@ func genPQ(r *vlib.Rand, res *vlib.Result) Case {
 		c.Ops = append(c.Ops, o)
 		shadow.Apply(o)
 	}
+	if len(c.Init) == 0 && r.Chance(1, 5) {
+		// two-subtree shape: the left subtree holds large priorities, the right one small ones and
+		// the last array element; removing / re-prioritising a node of the left subtree puts a
+		// replacement there that must move *up*.
+		size := []int{6, 7, 12, 13, 14, 15}[r.Intn(6)]
+		c.U = size + r.Intn(3)
+		sign := 1
+		if c.Ord == "rev" {
+			sign = -1
+		}
+		top := func(i int) int {
+			for i > 2 {
+				i = (i - 1) / 2
+			}
+			return i
+		}
+		depth := func(i int) int {
+			d := 0
+			for i > 0 {
+				i = (i - 1) / 2
+				d++
+			}
+			return d
+		}
+		var left []int
+		for i := 0; i < size; i++ {
+			p := 0
+			switch top(i) {
+			case 1:
+				p = 100 + 20*depth(i) + r.Intn(8)
+				left = append(left, i)
+			case 2:
+				p = 4 * depth(i)
+			}
+			add(Op{Name: "update", A: i, B: sign * p})
+		}
+		k := left[r.Intn(len(left))]
+		if r.Bool() {
+			add(Op{Name: "remove", A: k})
+		} else {
+			add(Op{Name: "qpop"})
+			add(Op{Name: "remove", A: left[r.Intn(len(left))]})
+		}
+		res.Count("pq-two-subtree-shape")
+		n = len(c.Ops) + r.Intn(6)
+	}
 	// key at a position class of the array
 	keyAt := func(class int) (int, bool) {
 		ks := shadow.QueueKeys()
@@ -607,8 +653,28 @@ func params(c Case) map[string]interface{} {
 	return map[string]interface{}{"object": c.Kind, "order": c.Ord, "ctor": c.Ctor}
 }
 
+// reported remembers which failure kinds were already shrunk and recorded (per object kind), so that a
+// broken tree does not spend its budget shrinking thousands of instances of the same failure.
+var (
+	reportedMu sync.Mutex
+	reported   = map[string]bool{}
+)
+
+func firstReport(key string) bool {
+	reportedMu.Lock()
+	defer reportedMu.Unlock()
+	if reported[key] {
+		return false
+	}
+	reported[key] = true
+	return true
+}
+
 func checkMonitor(c Case, res *vlib.Result) {
 	if k, what := monitor(c); k != "" {
+		if !firstReport("monitor|" + k + "|" + c.Kind) {
+			return
+		}
 		small := shrinkCase(c, func(d Case) bool { kk, _ := monitor(d); return kk == k })
 		if _, w2 := monitor(small); w2 != "" {
 			what = w2
@@ -639,6 +705,9 @@ func check(c Case, m *vlib.Model, res *vlib.Result) {
 	d, _ := differs(m, c)
 	res.Traces++
 	if d {
+		if !firstReport("correspondence|" + c.Kind) {
+			return
+		}
 		small := shrinkCase(c, func(x Case) bool { dd, _ := differs(m, x); return dd })
 		_, what := differs(m, small)
 		res.Fail(vlib.Failure{Source: "correspondence", Kind: c.Kind + "-model-differs", What: what, Case: small.Text()})
